@@ -25,18 +25,19 @@ ASSUMPTIONS = ['key universes of 3 keys (all weight pairs) and 4 keys (two weigh
                'weight alphabets (values include 0, weights include 0, 1, a fraction / a negative, a big one) chosen so that float products and sums are exact in single precision']
 
 # '/sub': an instance of an application subclass of the container class
+# '/ghost': stored through a data manager and deactivated - the operation has to load it
 FORMS = ['Set', 'TreeSet', 'TreeSet/thin', 'Bucket', 'BTree', 'BTree/thin', 'Set/sub', 'Bucket/sub',
-         'TreeSet/sub', 'None']
+         'TreeSet/sub', 'Bucket/ghost', 'Set/ghost', 'None']
 
 
 def bounds(tier):
     return ('quick: 16 numeric-valued families x 2 implementations; N=3 x all weight pairs, N=4 x 3 '
             'weight pairs; operand forms Set, TreeSet, Bucket, BTree (thinned multi-leaf trees too) and instances of '
-            'application subclasses of Set / Bucket / TreeSet; thorough: N=4 x all weight pairs, N=5 x 3 weight pairs')
+            'application subclasses of Set / Bucket / TreeSet, ghost Bucket / Set operands that the call has to load; thorough: N=4 x all weight pairs, N=5 x 3 weight pairs')
 
 
 def required_guards(tier):
-    return ['union', 'intersection', 'both_sets', 'set_and_mapping', 'both_mappings', 'none_operand',
+    return ['union', 'intersection', 'both_sets', 'set_and_mapping', 'both_mappings', 'none_operand', 'ghost_operand',
             'default_weights', 'big_weight', 'fractional_weight', 'zero_value']
 
 
@@ -107,6 +108,9 @@ def make(fam, impl, form, subset, keys, vals):
                     del c[k]
                 else:
                     c.remove(k)
+    if form.endswith('/ghost'):
+        from .c10 import ghostify
+        ghostify(c)
     return c
 
 
@@ -117,7 +121,7 @@ def job(fam, impl, n, weights, variant='centred'):
     vals, ws, rng = alphabets(fam)
     F.set_sizes(fam, 2, 2)
     # the n=4 jobs leave the third subclass form to the n=3 jobs
-    forms = FORMS if n <= 3 else [f for f in FORMS if f != 'TreeSet/sub']
+    forms = FORMS if n <= 3 else [f for f in FORMS if f not in ('TreeSet/sub', 'Set/ghost', 'Bucket/sub')]
     wpairs = list(itertools.product(ws, repeat=2))
     if weights == 'few':
         wpairs = [(ws[1], ws[1]), (ws[2], ws[-1]), (ws[-1], ws[3])]
@@ -170,8 +174,9 @@ def job(fam, impl, n, weights, variant='centred'):
                         slot.set(('C12', fam, impl, A, B, fa, fb, wspec, fname))
                         a = make(fam, impl, fa, A, keys, vals)
                         b = make(fam, impl, fb, B, keys, vals)
-                        sa = C.dump(a, 'Tree' in fa) if a is not None else None
-                        sb = C.dump(b, 'Tree' in fb) if b is not None else None
+                        # (a ghost operand is not touched before the call)
+                        sa = C.dump(a, 'Tree' in fa) if a is not None and 'ghost' not in fa else None
+                        sb = C.dump(b, 'Tree' in fb) if b is not None and 'ghost' not in fb else None
                         case = dict(base, A=list(A), B=list(B), fa=fa, fb=fb, w=list(args), fn=fname)
                         # expected
                         if a is None and b is None:
@@ -253,7 +258,12 @@ def job(fam, impl, n, weights, variant='centred'):
                                     'weighted%s(%s %r, %s %r, %r) -> (%r, %s %r), expected (%r, %s %r)'
                                     % (fname.capitalize(), fa, A, fb, B, args, got_w, tn, got_items,
                                        want[0], want[1], want[2]))
-                        if (C.dump(a, 'Tree' in fa) != sa) or (C.dump(b, 'Tree' in fb) != sb):
+                        if 'ghost' in fa or 'ghost' in fb:
+                            guards['ghost_operand'] += 1
+                        if ('ghost' not in fa and C.dump(a, 'Tree' in fa) != sa) or \
+                                ('ghost' not in fb and C.dump(b, 'Tree' in fb) != sb) or \
+                                ('ghost' in fa and list(a.keys()) != list(A)) or \
+                                ('ghost' in fb and list(b.keys()) != list(B)):
                             rep.add(dict(site=fname, cls='operand-modified', impl=impl), case,
                                     'an operand was modified')
                         if sample is None and A and B and ismap1 != ismap2 and not isinstance(wspec, str):
